@@ -594,8 +594,9 @@ func c12R4(c *Ctx, r *Report) {
 		r.check(len(problems) == 0, "C12.R5.fresh-writer", name, c.pos(f.Pos()), "new(response) per call", "%s", strings.Join(problems, "; "))
 	}
 	// what goes back into the buffer pool has the pool's element size: a short slice would be handed to a later read
-	r.rule("C12.R4.pool-put-size", 4, "every buffer returned to the UDP pool is re-sliced to srv.UDPSize (or is the untouched buffer just taken from it)")
+	r.rule("C12.R4.pool-put-size", 4, "every buffer returned to the UDP pool is re-sliced to srv.UDPSize (or is the untouched buffer just taken from it), unless every Get compares the length with srv.UDPSize")
 	nPut := 0
+	getsGuarded := poolGetsGuarded(c)
 	for _, name := range []string{"Server.serveUDP", "Server.serveDNS", "Server.readUDP", "Server.readPacketConn", "Server.serveUDPPacket"} {
 		f := c.ssaFunc(name)
 		if f == nil {
@@ -627,6 +628,18 @@ func c12R4(c *Ctx, r *Report) {
 					}
 				}
 			}
+			if call, isCall := arg.(*ssa.Call); isCall {
+				// the untouched result of a helper that hands out full-size buffers only
+				if g := call.Call.StaticCallee(); g != nil && fullSizeBuffers(g) {
+					ok = true
+				}
+			}
+			if !ok && getsGuarded {
+				// a buffer that enters the pool short never reaches a read: the Get side compares its length
+				// with srv.UDPSize and drops it (C14.R1.pool-get-size decides that)
+				r.ok("C12.R4.pool-put-size", fmt.Sprintf("%s:Put#%d", name, nPut), c.pos(ci.Pos()), "not re-sliced, but every Get checks the length")
+				continue
+			}
 			r.check(ok, "C12.R4.pool-put-size", fmt.Sprintf("%s:Put#%d", name, nPut), c.pos(ci.Pos()), "m[:UDPSize]", "a buffer goes back into the pool at the length of the datagram it last held, not re-sliced to srv.UDPSize: the next read that gets it can take at most that many octets, so later (larger) requests are truncated and dropped")
 		}
 	}
@@ -638,4 +651,52 @@ func c12R4(c *Ctx, r *Report) {
 		all := append(append([]string{}, status...), chain...)
 		r.check(len(all) == 0, "C12.R5.writer-reset", "Server.serveDNS", pos, "tsigStatus, tsigTimersOnly, tsigRequestMAC", "%s", strings.Join(all, "; "))
 	}
+}
+
+// fullSizeBuffers: every value g returns is a buffer just taken from the UDP pool or a fresh make([]byte, srv.UDPSize).
+func fullSizeBuffers(g *ssa.Function) bool {
+	if len(g.Blocks) == 0 || g.Signature.Results().Len() != 1 {
+		return false
+	}
+	n := 0
+	for _, b := range g.Blocks {
+		ret, ok := b.Instrs[len(b.Instrs)-1].(*ssa.Return)
+		if !ok {
+			continue
+		}
+		for _, l := range phiLeaves(ret.Results[0]) {
+			n++
+			switch t := l.(type) {
+			case *ssa.TypeAssert:
+				call, ok := t.X.(*ssa.Call)
+				if !ok || calleeNameSSA(&call.Call) != "(sync.Pool).Get" {
+					return false
+				}
+			case *ssa.MakeSlice:
+				if !anyIn(sliceOf(t.Len), readsField("Server", "UDPSize")) {
+					return false
+				}
+			default:
+				return false
+			}
+		}
+	}
+	return n > 0
+}
+
+// poolGetsGuarded: every buffer taken from the UDP pool is size-checked before use (the pool-get-size rule holds).
+func poolGetsGuarded(c *Ctx) bool {
+	sub := newReport("tmp", "quick")
+	poolGetSize(c, sub, "tmp.get", "")
+	n := 0
+	for _, o := range sub.obls {
+		if o.Rule != "tmp.get" {
+			continue
+		}
+		n++
+		if o.Status != stOK {
+			return false
+		}
+	}
+	return n > 0
 }
